@@ -125,6 +125,10 @@ def run(chk: Check) -> None:
     truthiness_safe(sub, "R01.3")
     _reader_agreement(sub, schema, pf, msgs_all)
     chk.adopt(sub, None, "R01.3")
+    from .c07 import run as _c07
+    sub = chk.sub()
+    _c07(sub)
+    chk.adopt(sub, lambda o: o.rule in ("R07.1", "R07.2"), "R01.5")
 
 
 # ---------------------------------------------------------------------------
